@@ -17,17 +17,18 @@ RULE = (
     "(shape, observed pattern, k, batch set); non-trivial = the batch is non-empty or some sample has fewer than k plates"
 )
 ASSUMPTIONS = ["states are memoised on the set of batch plates (quick: <=9 plates; thorough: always) or on per-sample batch counts (larger shapes)"]
-REQUIRED = {"holders_not_in_plate_id_order": {"quick": 1000, "thorough": 8000}, "states_checked": {"quick": 3000, "thorough": 20000}, "walk_steps": {"quick": 300, "thorough": 5000}, "multi_sample_refusals": {"quick": 40, "thorough": 250}, "multi_sample_layout_1": {"quick": 6, "thorough": 40}, "batches_revealed_in_place": {"quick": 60, "thorough": 800}}
+REQUIRED = {"screens_with_interleaved_plate_ids": {"quick": 60, "thorough": 400}, "holders_not_in_plate_id_order": {"quick": 1000, "thorough": 8000}, "states_checked": {"quick": 3000, "thorough": 20000}, "walk_steps": {"quick": 300, "thorough": 5000}, "multi_sample_refusals": {"quick": 40, "thorough": 250}, "multi_sample_layout_1": {"quick": 6, "thorough": 40}, "batches_revealed_in_place": {"quick": 60, "thorough": 800}}
 
 
-def build_screen(Screen, shape, observed_plates=(), multi=None, multi_where=2):
-    """shape: plates per sample.  Every plate holds 1-2 rows of its sample."""
+def build_screen(Screen, shape, observed_plates=(), multi=None, multi_where=2, perm=None):
+    """shape: plates per sample.  Every plate holds 1-2 rows of its sample.  perm: relabels the plates, so that the
+    plates of one sample are not neighbours in plate-id order."""
     tn, td, sn, pn = [], [], [], []
     pid = 0
     names = []
     for s, np_ in enumerate(shape):
         for j in range(np_):
-            name = "p%02d" % pid
+            name = "p%02d" % (pid if perm is None else int(perm[pid]))
             names.append((name, s))
             for r in range(1 + (pid % 2)):
                 tn.append(["a", "b"])
@@ -151,7 +152,10 @@ def run_shard(rec, tier, seed, shard, nshards):
         observed = ()
         if obs_mode == "rand":
             observed = tuple(sorted(int(x) for x in rng.choice(tot, size=int(rng.integers(1, max(2, tot // 2 + 1))), replace=False)))
-        screen = build_screen(Screen, shape, observed)
+        perm = rng.permutation(tot) if rng.random() < 0.5 else None
+        if perm is not None:
+            rec.count("screens_with_interleaved_plate_ids")
+        screen = build_screen(Screen, shape, observed, perm=perm)
         policy = KPerSamplePlatePolicy(k)
         plate_name_to_id = dict(zip([str(x) for x in screen.plate_mapping[0]], [int(x) for x in screen.plate_mapping[1]]))
         sample_of = {}
@@ -213,7 +217,10 @@ def run_shard(rec, tier, seed, shard, nshards):
         k = int(rng.integers(1, 6))
         tot = sum(shape)
         observed = tuple(sorted(int(x) for x in rng.choice(tot, size=int(rng.integers(0, tot // 2 + 1)), replace=False)))
-        screen = build_screen(Screen, shape, observed)
+        perm = rng.permutation(tot) if rng.random() < 0.6 else None
+        if perm is not None:
+            rec.count("screens_with_interleaved_plate_ids")
+        screen = build_screen(Screen, shape, observed, perm=perm)
         policy = KPerSamplePlatePolicy(k)
         sample_of = {int(p.plate_id): int(p.sample_ids[0]) for p in screen.plates}
         unobserved = sorted(int(p.plate_id) for p in screen.plates if not p.is_observed)
